@@ -651,9 +651,9 @@ def _clip(a, lo, hi):
 def _isclose(a, b, rtol=1e-05, atol=1e-08, equal_nan=False):
     def f(x, y):
         x, y = _py(x), _py(y)
-        if not is_sym(x) and not is_sym(y):
+        if not is_sym(x) and not is_sym(y) and not is_sym(_py(atol)) and not is_sym(_py(rtol)):
             return bool(np.isclose(x, y, rtol=rtol, atol=atol, equal_nan=equal_nan))
-        return abs(x - y) <= atol + rtol * abs(y)
+        return abs(x - y) <= _py(atol) + _py(rtol) * abs(y)
 
     return wrap(np.frompyfunc(f, 2, 1)(plain(symify(a)), plain(symify(b))))
 
